@@ -196,3 +196,21 @@ Definition spec_get_value (v : view) (a : arr) (vshape off : list Z) : res (list
 
 Definition spec_set_value (v : view) (a : arr) (vshape off : list Z) (gen : nat -> V) : res arr :=
   spec_view_write v a (spec_value_count v vshape) off gen.
+
+(** * The typed template routes through a view (every Hydra container kind)
+
+    getData(value): the value is resized to the window by its container's rule and receives the window;
+    getData(value, count, offset): the value is resized to [count] and receives the (count, offset) request, an empty
+    count being ONE element (a value of rank 0 holds one);  in both cases exactly as many elements as the value holds
+    after the resize are transferred, or the call throws.  setData(value): a view cannot be resized - refused. *)
+Definition spec_tgetall (v : view) (a : arr) (r : route) : res (list Z * list V) :=
+  bind (route_resize r (v_count v)) (fun ext =>
+  bind (spec_view_read v a (route_shape r ext) []) (fun vals => Ok (ext, vals))).
+
+Definition spec_tget3 (v : view) (a : arr) (r : route) (cnt off : list Z) : res (list Z * list V) :=
+  bind (route_resize r cnt) (fun ext =>
+  bind (spec_view_read v a (match cnt with [] => repeat 1 (List.length (v_count v)) | _ :: _ => cnt end) off) (fun vals =>
+  Ok (ext, vals))).
+
+(** util::positionInData: the one-element box at [pos] lies in the data *)
+Definition spec_pos_in_data (extent pos : list Z) : bool := fits extent pos (repeat 1 (List.length pos)).
